@@ -137,7 +137,8 @@ def ensure_specs(workdir: str) -> str:
 def run(module: str, cfg: str, *, workdir: str, mode: str = "mc", workers: Optional[int] = None,
         sim_num: int = 100, sim_depth: int = 20, seed: Optional[int] = None, env: Dict[str, str] = None,
         timeout: float = 1800, coverage: bool = False, extra_modules=(), deque: bool = False,
-        dump_trace: bool = True, cfg_name: Optional[str] = None, java_heap: str = None) -> TlcResult:
+        dump_trace: bool = True, cfg_name: Optional[str] = None, java_heap: str = None,
+        tolerate: Optional[str] = None) -> TlcResult:
     """Run TLC on specs/<module>.tla with config text `cfg` inside `workdir` (a scratch dir)."""
     # copy all specs so EXTENDS/INSTANCE resolve; tiny files
     specdir = ensure_specs(workdir)
@@ -241,6 +242,8 @@ def run(module: str, cfg: str, *, workdir: str, mode: str = "mc", workers: Optio
         res.ok = False
     elif finished:
         res.ok = True
+    elif tolerate and tolerate in out:
+        res.ok = False               # the caller knows how to go on after this particular evaluation error
     else:
         raise MachineryError("TLC did not finish cleanly:\n" + res.tail)
     shutil.rmtree(meta, ignore_errors=True)
